@@ -9,7 +9,7 @@ import z3
 
 from pyvc.core import Undecided
 from pyvc.interp import LoopSpec, FieldSpec
-from pyvc.values import Sym, Obj, SList, SSet, VList, StrSort
+from pyvc.values import Sym, Obj, SList, SSet, SMap, VList, StrSort
 from pyvc import ops
 
 from placement.objects import allocation_candidate as ac
@@ -111,6 +111,7 @@ def shuffle_contract(I, args, kwargs):
                z3.Select(new, inv(p)) == z3.Select(old, p))),
         patterns=[inv(p), z3.Select(old, p)]))
     lst.arr = new
+    I.touched(lst)
     I.event('random', 'shuffle')
     I.ghost['shuffle_inv'] = inv
     return None
@@ -327,3 +328,413 @@ def limit_ensures(I, limit, randomize, areqs, sums, out_a, out_s,
                                   os_ == z3.Select(sums.arr, j)))),
             patterns=[z3.Select(out_s.arr, s)]),
     }
+
+
+# ==========================================================================
+# C02: _consolidate_allocation_requests, exceeds_capacity
+CQ = '_consolidate_allocation_requests'
+KEY = ('tuple', ('int', 'str'))           # (provider id, resource class)
+PSR = ac.ProviderSummaryResource
+
+C02_FIELDS = {
+    ('RequestWideSearchContext', 'group_policy'): FieldSpec('str', True),
+    ('RequestWideSearchContext', 'multi_group_rcs'): FieldSpec(('set', 'str')),
+    ('RequestWideSearchContext', 'psum_res_by_rp_rc'): FieldSpec(
+        ('map', KEY, ('obj', PSR))),
+}
+
+
+def arr_key(I, x, amount_arr=None):
+    from pyvc.values import sort_of
+    rp = z3.Select(I.fld(ARR, 'resource_provider'), x)
+    return sort_of(KEY).mk(z3.Select(I.fld(RP, 'id'), rp),
+                           z3.Select(I.fld(ARR, 'resource_class'), x))
+
+
+def copy_contract(I, args, kwargs):
+    """copy.copy of a heap object: a new object with the same field values"""
+    src = args[0]
+    if not isinstance(src, Obj):
+        raise Undecided('copy.copy of %r' % (src,))
+    new = I.alloc(src.cls)
+    cname = src.cls.__name__
+    for (cn, fld), spec in I.registry['fields'].items():
+        if cn == cname:
+            I.write_field(new, fld, I.read_field(src, fld))
+    I.event('copy', src, new)
+    return new
+
+
+def consolidate_ghost(I):
+    """ghost sums: T(j, q, k) = sum of the entry amounts of resources 0..q-1
+    of request j with key k;  S(j, k) = sum over requests 0..j-1."""
+    from pyvc.values import sort_of
+    g = I.ghost
+    if 'cons.S' not in g:
+        ks = sort_of(KEY)
+        n = I.ex.fresh_name
+        g['cons.S'] = z3.Function(n('S'), z3.IntSort(), ks, z3.IntSort())
+        g['cons.T'] = z3.Function(n('T'), z3.IntSort(), z3.IntSort(), ks,
+                                  z3.IntSort())
+    return g['cons.S'], g['cons.T']
+
+
+def cons_entry(I, frame, seq):
+    I.ghost.setdefault('cons.amount0', I.fld(ARR, 'amount'))
+    I.ghost.setdefault('cons.areqs', frame.locals['areqs'])
+    I.ghost.setdefault('cons.mark', I.next_ref)
+
+
+def first_fns(I):
+    """ghost: (fj(k), fq(k)) = the first position (request, resource) whose
+    key is k, has(k) = there is one"""
+    from pyvc.values import sort_of
+    g = I.ghost
+    if 'cons.fj' not in g:
+        ks = sort_of(KEY)
+        n = I.ex.fresh_name
+        g['cons.fj'] = z3.Function(n('fj'), ks, z3.IntSort())
+        g['cons.fq'] = z3.Function(n('fq'), ks, z3.IntSort())
+        g['cons.has'] = z3.Function(n('has'), ks, z3.BoolSort())
+    return g['cons.fj'], g['cons.fq'], g['cons.has']
+
+
+def first_axioms(I, areqs):
+    """definition of fj / fq / has (a function of the input only)"""
+    from pyvc.values import sort_of
+    fj, fq, has = first_fns(I)
+    ks = sort_of(KEY)
+    k = z3.Const('k!first', ks)
+    j, q = z3.Ints('j!first q!first')
+    ln, ar = rr(I, z3.Select(areqs.arr, j))
+    x = z3.Select(ar, q)
+    lnf, arf = rr(I, z3.Select(areqs.arr, fj(k)))
+    kk = arr_key(I, x)
+    return [
+        ops.forall([k], z3.Implies(has(k), z3.And(
+            fj(k) >= 0, fj(k) < areqs.len, fq(k) >= 0, fq(k) < lnf,
+            arr_key(I, z3.Select(arf, fq(k))) == k)), patterns=[has(k)]),
+        ops.forall([j, q], z3.Implies(
+            z3.And(j >= 0, j < areqs.len, q >= 0, q < ln),
+            z3.And(has(kk), z3.Or(fj(kk) < j,
+                                  z3.And(fj(kk) == j, fq(kk) <= q)))),
+            patterns=[z3.Select(ar, q)]),
+    ]
+
+
+def _before(I, k, j, q):
+    fj, fq, has = first_fns(I)
+    return z3.And(has(k), z3.Or(fj(k) < j, z3.And(fj(k) == j, fq(k) < q)))
+
+
+def _cons_defs(I, areqs, j, q=None):
+    """definitional axioms of S / T instantiated at request j (and resource
+    q of it)"""
+    from pyvc.values import sort_of
+    S, T = consolidate_ghost(I)
+    a0 = I.ghost['cons.amount0']
+    ks = sort_of(KEY)
+    k = z3.Const('k!cdef', ks)
+    a = z3.Select(areqs.arr, j)
+    ln, ar = rr(I, a)
+    out = [
+        ops.forall([k], S(0, k) == 0, patterns=[S(0, k)]),
+        ops.forall([k], T(j, 0, k) == 0, patterns=[T(j, 0, k)]),
+        ops.forall([k], S(j + 1, k) == S(j, k) + T(j, ln, k),
+                   patterns=[S(j + 1, k)]),
+    ] + first_axioms(I, areqs)
+    if q is not None:
+        x = z3.Select(ar, q)
+        hit = arr_key(I, x) == k
+        out.append(ops.forall([k], T(j, q + 1, k) == T(j, q, k) +
+                              z3.If(hit, z3.Select(a0, x), 0),
+                              patterns=[T(j, q + 1, k)]))
+    return out
+
+
+def _cons_dict(frame):
+    d = frame.locals['arrs_by_rp_rc']
+    if not isinstance(d, SMap):
+        raise Undecided('arrs_by_rp_rc is %r' % (d,))
+    return d
+
+
+def _cons_common(I, areqs, rw, d, cur_sum, seen):
+    """facts about the dict that hold throughout: dom <=> some resource seen;
+    amount of the entry == sum so far; the pre-existing objects keep their
+    amounts; an entry is a copy made by this call unless its class is
+    requested by one group only"""
+    from pyvc.values import sort_of
+    a0 = I.ghost['cons.amount0']
+    mark = I.ghost['cons.mark']
+    amt = I.fld(ARR, 'amount')
+    multi = I.read_field(rw, 'multi_group_rcs')
+    ks = sort_of(KEY)
+    k = z3.Const('k!cinv', ks)
+    r = z3.Int('r!cinv')
+    v = z3.Select(d.val, k)
+    return [
+        ops.forall([k], z3.Select(d.dom, k) == seen(k),
+                   patterns=[z3.Select(d.dom, k)]),
+        ops.forall([k], z3.Implies(
+            z3.Select(d.dom, k),
+            z3.And(z3.Select(amt, v) == cur_sum(k), arr_key(I, v) == k,
+                   v >= 0,
+                   z3.Or(v > mark, z3.Not(z3.Select(
+                       multi.arr, ks.accessor(0, 1)(k)))))),
+            patterns=[z3.Select(d.val, k)]),
+        ops.forall([r], z3.Implies(z3.And(r >= 0, r <= mark),
+                                   z3.Select(amt, r) == z3.Select(a0, r)),
+                   patterns=[z3.Select(amt, r)]),
+        ops.forall([k], z3.Implies(z3.Not(z3.Select(d.dom, k)),
+                                   cur_sum(k) == 0),
+                   patterns=[z3.Select(d.dom, k)]),
+    ]
+
+
+def cons_outer_inv(I, frame, i, seq):
+    S, T = consolidate_ghost(I)
+    d = _cons_dict(frame)
+    areqs = frame.locals['areqs']
+    return _cons_common(I, areqs, frame.locals['rw_ctx'], d,
+                        lambda k: S(i, k), lambda k: _before(I, k, i, 0))
+
+
+def cons_outer_lemmas(I, frame, i, seq):
+    I.ghost['cons.outer_i'] = i
+    return _cons_defs(I, frame.locals['areqs'], i)
+
+
+def cons_inner_inv(I, frame, i, seq):
+    S, T = consolidate_ghost(I)
+    d = _cons_dict(frame)
+    areqs = I.ghost['cons.areqs']
+    j = I.ghost['cons.outer_i']
+    return _cons_common(I, areqs, frame.locals['rw_ctx'], d,
+                        lambda k: S(j, k) + T(j, i, k),
+                        lambda k: _before(I, k, j, i))
+
+
+def cons_inner_lemmas(I, frame, i, seq):
+    return _cons_defs(I, I.ghost['cons.areqs'], I.ghost['cons.outer_i'], i)
+
+
+CONS_LOOPS = {
+    (CQ, 1): LoopSpec(invariant=cons_outer_inv, lemmas=cons_outer_lemmas,
+                      on_entry=cons_entry, name='C02.cons.outer',
+                      keep=('areqs', 'rw_ctx', 'anchor_rp_uuid'),
+                      modifies_fields=(('AllocationRequestResource',
+                                        'amount'),)),
+    (CQ, 2): LoopSpec(invariant=cons_inner_inv, lemmas=cons_inner_lemmas,
+                      name='C02.cons.inner',
+                      keep=('areqs', 'rw_ctx', 'anchor_rp_uuid', 'areq',
+                            'mappings'),
+                      modifies_fields=(('AllocationRequestResource',
+                                        'amount'),)),
+    (CQ, 3): LoopSpec(name='C02.cons.mappings',
+                      keep=('areqs', 'rw_ctx', 'anchor_rp_uuid', 'areq',
+                            'arrs_by_rp_rc')),
+}
+
+CONS_HAVOC_TYPES = {
+    (CQ, 'arrs_by_rp_rc'): ('map', KEY, ('obj', ARR)),
+}
+
+
+def consolidate_requires(I, areqs, rw):
+    """one request per group, all with the same anchor; within a request the
+    (provider, class) keys are pairwise distinct; a key used by two requests
+    has its class recorded in multi_group_rcs (established by
+    _get_by_requests); provider ids are set"""
+    j, j2, q, q2 = z3.Ints('j!cr j2!cr q!cr q2!cr')
+    a, a2 = z3.Select(areqs.arr, j), z3.Select(areqs.arr, j2)
+    ln, ar = rr(I, a)
+    ln2, ar2 = rr(I, a2)
+    x, x2 = z3.Select(ar, q), z3.Select(ar2, q2)
+    multi = I.read_field(rw, 'multi_group_rcs')
+    anchor = I.fld(AREQ, 'anchor_root_provider_uuid')
+    anone = I.fld_none(AREQ, 'anchor_root_provider_uuid')
+    inr = z3.And(j >= 0, j < areqs.len, q >= 0, q < ln)
+    inr2 = z3.And(j2 >= 0, j2 < areqs.len, q2 >= 0, q2 < ln2)
+    rpid_none = I.fld_none(RP, 'id')
+    return [
+        areqs.len >= 1,
+        ops.forall([j], z3.Implies(
+            z3.And(j >= 0, j < areqs.len),
+            z3.And(z3.Select(anchor, a) == z3.Select(anchor, areqs.arr[0]),
+                   z3.Select(anone, a) == z3.Select(anone, areqs.arr[0]))),
+            patterns=[z3.Select(areqs.arr, j)]),
+        ops.forall([j, q, q2], z3.Implies(
+            z3.And(inr, q2 >= 0, q2 < ln, q != q2),
+            arr_key(I, x) != arr_key(I, z3.Select(ar, q2))),
+            patterns=[z3.MultiPattern(z3.Select(ar, q), z3.Select(ar, q2))]),
+        ops.forall([j, q, j2, q2], z3.Implies(
+            z3.And(inr, inr2, j != j2, arr_key(I, x) == arr_key(I, x2)),
+            z3.Select(multi.arr, z3.Select(I.fld(ARR, 'resource_class'), x))),
+            patterns=[z3.MultiPattern(z3.Select(ar, q), z3.Select(ar2, q2))]),
+        ops.forall([j, q], z3.Implies(inr, z3.And(
+            z3.Not(z3.Select(rpid_none, z3.Select(
+                I.fld(ARR, 'resource_provider'), x))),
+            z3.Select(I.fld(ARR, 'amount'), x) >= 1,
+            # the resources are objects that exist when the call is made
+            x >= 0, x <= I.next_ref)),
+            patterns=[z3.Select(ar, q)]),
+    ]
+
+
+# --- exceeds_capacity ---------------------------------------------------------
+EQ = 'RequestWideSearchContext.exceeds_capacity'
+
+
+def exc_inv(I, frame, i, seq):
+    """no resource before index i exceeds"""
+    areq = frame.locals['areq']
+    rw = frame.locals['self']
+    ln, ar = rr(I, areq.ref)
+    q = z3.Int('q!exc')
+    return [ops.forall([q], z3.Implies(
+        z3.And(q >= 0, q < i), z3.Not(exceeds_term(I, rw, z3.Select(ar, q)))),
+        patterns=[z3.Select(ar, q)])]
+
+
+def exceeds_term(I, rw, x):
+    m = I.read_field(rw, 'psum_res_by_rp_rc')
+    ps = z3.Select(m.val, arr_key(I, x))
+    amount = z3.Select(I.fld(ARR, 'amount'), x)
+    return z3.Or(
+        z3.Select(I.fld(PSR, 'used'), ps) + amount >
+        z3.Select(I.fld(PSR, 'capacity'), ps),
+        amount > z3.Select(I.fld(PSR, 'max_unit'), ps))
+
+
+EXC_LOOPS = {
+    (EQ, 1): LoopSpec(invariant=exc_inv, name='C02.exceeds',
+                      keep=('self', 'areq')),
+}
+
+
+# --- _build_provider_summaries --------------------------------------------------
+BQ = '_build_provider_summaries'
+
+
+class UsageRow(object):
+    """row of get_usages_by_provider_trees"""
+
+
+class PidRow(object):
+    """row of _provider_ids_from_root_ids"""
+
+
+BPS_FIELDS = {
+    ('UsageRow', 'resource_provider_id'): FieldSpec('int'),
+    ('UsageRow', 'resource_class_id'): FieldSpec('int', True),
+    ('UsageRow', 'total'): FieldSpec('int'),
+    ('UsageRow', 'reserved'): FieldSpec('int'),
+    ('UsageRow', 'allocation_ratio'): FieldSpec('real'),
+    ('UsageRow', 'max_unit'): FieldSpec('int'),
+    ('UsageRow', 'used'): FieldSpec('int', True),
+    ('PidRow', 'id'): FieldSpec('int'),
+    ('PidRow', 'uuid'): FieldSpec('str'),
+    ('PidRow', 'parent_id'): FieldSpec('int', True),
+    ('PidRow', 'root_id'): FieldSpec('int'),
+    ('RequestWideSearchContext', 'summaries_by_id'): FieldSpec(
+        ('map', 'int', ('obj', PSUM))),
+}
+
+
+def trunc(c):
+    fl = z3.ToInt(c)
+    return z3.If(c >= 0, fl, z3.If(z3.ToReal(fl) == c, fl, fl + 1))
+
+
+def bps_entry(I, frame, seq):
+    rw = frame.locals['rw_ctx']
+    I.ghost['bps.sums0'] = I.read_field(rw, 'summaries_by_id').dom
+    I.ghost['bps.rows'] = seq.origin
+
+
+def bps_row_facts(I, frame, j, psr_map, sum_map, split=False):
+    """what the summaries say about usage row j once it is processed"""
+    from pyvc.values import sort_of
+    rows = I.ghost['bps.rows']
+    pids = frame.locals['provider_ids']
+    cache = I.ghost['ctx'].getattr(I, 'rc_cache')
+    r = z3.Select(rows.arr, j)
+    f = lambda n: z3.Select(I.fld(UsageRow, n), r)
+    fn = lambda n: z3.Select(I.fld_none(UsageRow, n), r)
+    rp_id = f('resource_provider_id')
+    key = sort_of(KEY).mk(rp_id, cache.f_str(f('resource_class_id')))
+    o = z3.Select(psr_map.val, key)
+    pf = lambda n: z3.Select(I.fld(PSR, n), o)
+    cap = trunc(z3.ToReal(f('total') - f('reserved')) * f('allocation_ratio'))
+    # objects reachable from the maps exist already (reference numbers carry
+    # identity only; what an iteration allocates lies above I.next_ref)
+    bound = z3.IntVal(I.next_ref)
+    resource_parts = [
+        z3.And(z3.Select(psr_map.dom, key), o >= 0, o <= bound),
+        pf('capacity') == cap,
+        pf('used') == z3.If(fn('used'), 0, f('used')),
+        pf('max_unit') == f('max_unit'),
+        pf('resource_class') == cache.f_str(f('resource_class_id'))]
+    if split:
+        return [z3.Implies(z3.Not(fn('resource_class_id')), x)
+                for x in resource_parts]
+    resource_part = z3.Implies(z3.Not(fn('resource_class_id')),
+                               z3.And(*resource_parts))
+    s = z3.Select(sum_map.val, rp_id)
+    rp = z3.Select(I.fld(PSUM, 'resource_provider'), s)
+    pid = z3.Select(pids.val, rp_id)
+    pg = lambda n, x=None: z3.Select(I.fld(PidRow, n), pid if x is None else x)
+    parent_null = z3.Or(z3.Select(I.fld_none(PidRow, 'parent_id'), pid),
+                        pg('parent_id') == 0)
+    provider_part = z3.And(
+        z3.Select(sum_map.dom, rp_id), s >= 0, s <= bound, rp >= 0,
+        rp <= bound,
+        z3.Select(I.fld(RP, 'id'), rp) == pg('id'),
+        z3.Not(z3.Select(I.fld_none(RP, 'id'), rp)),
+        z3.Select(I.fld(RP, 'uuid'), rp) == pg('uuid'),
+        z3.Not(z3.Select(I.fld_none(RP, 'uuid'), rp)),
+        z3.Select(I.fld(RP, 'root_provider_uuid'), rp) ==
+        pg('uuid', z3.Select(pids.val, pg('root_id'))),
+        z3.Not(z3.Select(I.fld_none(RP, 'root_provider_uuid'), rp)),
+        z3.Select(I.fld_none(RP, 'parent_provider_uuid'), rp) == parent_null,
+        z3.Implies(z3.Not(parent_null),
+                   z3.Select(I.fld(RP, 'parent_provider_uuid'), rp) ==
+                   pg('uuid', z3.Select(pids.val, pg('parent_id')))))
+    return resource_part, provider_part
+
+
+def bps_inv(I, frame, i, seq):
+    rw = frame.locals['rw_ctx']
+    psr_map = I.read_field(rw, 'psum_res_by_rp_rc')
+    sum_map = I.read_field(rw, 'summaries_by_id')
+    rows = I.ghost['bps.rows']
+    j = z3.Int('j!bps')
+    x = z3.Int('x!bps')
+    res, prov = bps_row_facts(I, frame, j, psr_map, sum_map)
+    rpj = z3.Select(I.fld(UsageRow, 'resource_provider_id'),
+                    z3.Select(rows.arr, j))
+    parts = bps_row_facts(I, frame, j, psr_map, sum_map, split=True)
+    return [
+        ops.forall([j], z3.Implies(z3.And(j >= 0, j < i), x),
+                   patterns=[z3.Select(rows.arr, j)]) for x in parts] + [
+        ops.forall([j], z3.Implies(z3.And(j >= 0, j < i), prov),
+                   patterns=[z3.Select(rows.arr, j)]),
+        ops.forall([x], z3.Implies(
+            z3.Select(sum_map.dom, x),
+            z3.Or(z3.Select(I.ghost['bps.sums0'], x),
+                  z3.Exists([j], z3.And(j >= 0, j < i, rpj == x)))),
+            patterns=[z3.Select(sum_map.dom, x)]),
+    ]
+
+
+BPS_LOOPS = {
+    (BQ, 1): LoopSpec(invariant=bps_inv, on_entry=bps_entry,
+                      name='C02.summaries',
+                      keep=('context', 'rw_ctx', 'root_ids', 'prov_traits',
+                            'new_roots', 'usages', 'provider_ids'),
+                      modifies_fields=(
+                          ('ProviderSummary', 'resources'),
+                          ('RequestWideSearchContext', 'psum_res_by_rp_rc'),
+                          ('RequestWideSearchContext', 'summaries_by_id'))),
+}
